@@ -1238,6 +1238,11 @@ var ruleErrorReturns = &core.Rule{ID: "R02.5", Min: 6,
 					}
 					ex, isEx := v1.(*ssa.Extract)
 					okErr := isEx && types.Identical(ex.Type(), errT)
+					if ph, isPhi := v1.(*ssa.Phi); isPhi && !okErr {
+						// an error variable: every value it can hold is a callee's error (or nil, which this return
+						// cannot see: it sits behind err != nil, checked per error below)
+						okErr = errVarOfCallees(ph, errT, map[*ssa.Phi]bool{})
+					}
 					s.Check(okSent && okErr, key, c.Pos(r.Pos()), "(octet-stream sentinel, the callee's error)",
 						"an error return does not carry the detached application/octet-stream sentinel together with the error that the callee reported")
 				}
@@ -1263,6 +1268,14 @@ var ruleErrorReturns = &core.Rule{ID: "R02.5", Min: 6,
 						continue
 					}
 					tested := false
+					// the error may first be merged into an error variable (err of the other branch, nil after an excuse)
+					for _, ph := range errPhiWeb(ex) {
+						for _, ref := range *ph.Referrers() {
+							if bo, ok := ref.(*ssa.BinOp); ok && (core.IsNilConst(bo.Y) || core.IsNilConst(bo.X)) {
+								tested = true
+							}
+						}
+					}
 					for _, ref := range *ex.Referrers() {
 						bo, ok := ref.(*ssa.BinOp)
 						if !ok {
@@ -1380,6 +1393,58 @@ func isPassThrough(v0, v1 ssa.Value) bool {
 	return ok && call.Call.StaticCallee() != nil && exportedAPI(call.Call.StaticCallee())
 }
 
+// errPhiWeb: the phis the error value ex flows into (transitively).
+func errPhiWeb(ex ssa.Value) []*ssa.Phi {
+	var out []*ssa.Phi
+	seen := map[*ssa.Phi]bool{}
+	var rec func(v ssa.Value)
+	rec = func(v ssa.Value) {
+		refs := v.Referrers()
+		if refs == nil {
+			return
+		}
+		for _, ref := range *refs {
+			if ph, ok := ref.(*ssa.Phi); ok && !seen[ph] {
+				seen[ph] = true
+				out = append(out, ph)
+				rec(ph)
+			}
+		}
+	}
+	rec(ex)
+	return out
+}
+
+// errVarOfCallees: every edge of the phi is nil, the error result of a call, or such a phi again.
+func errVarOfCallees(ph *ssa.Phi, errT types.Type, seen map[*ssa.Phi]bool) bool {
+	if seen[ph] {
+		return true
+	}
+	seen[ph] = true
+	for _, e := range ph.Edges {
+		switch x := e.(type) {
+		case *ssa.Const:
+			if x.Value != nil {
+				return false
+			}
+		case *ssa.Extract:
+			if !types.Identical(x.Type(), errT) {
+				return false
+			}
+			if _, isCall := x.Tuple.(*ssa.Call); !isCall {
+				return false
+			}
+		case *ssa.Phi:
+			if !errVarOfCallees(x, errT, seen) {
+				return false
+			}
+		default:
+			return false
+		}
+	}
+	return true
+}
+
 // errPathsDisciplined explores every path from the definition of the error
 // value err to a return, tracking what is known about err: untested, nil,
 // non-nil, or excused (equal to a package-level sentinel). A return that does
@@ -1410,6 +1475,21 @@ func errPathsDisciplined(err *ssa.Extract, f *ssa.Function) string {
 	}
 	seen := map[st]bool{}
 	why := ""
+	// what v stands for on the current path: phis are looked through
+	resolve := func(env benv, v ssa.Value) ssa.Value {
+		for i := 0; i < 6; i++ {
+			ph, ok := v.(*ssa.Phi)
+			if !ok {
+				return v
+			}
+			r, known := env[ph]
+			if !known {
+				return v
+			}
+			v = r
+		}
+		return v
+	}
 	var walk func(prev, b *ssa.BasicBlock, k int, env benv)
 	walk = func(prev, b *ssa.BasicBlock, k int, env benv) {
 		if why != "" {
@@ -1422,7 +1502,12 @@ func errPathsDisciplined(err *ssa.Extract, f *ssa.Function) string {
 				if !ok {
 					break
 				}
-				if bt, ok := ph.Type().Underlying().(*types.Basic); !ok || bt.Kind() != types.Bool {
+				// boolean flags, and error variables that merge this error with others or with nil
+				isFlag := false
+				if bt, ok := ph.Type().Underlying().(*types.Basic); ok && bt.Kind() == types.Bool {
+					isFlag = true
+				}
+				if !isFlag && !types.Identical(ph.Type(), err.Type()) {
 					continue
 				}
 				for i, p := range b.Preds {
@@ -1453,7 +1538,7 @@ func errPathsDisciplined(err *ssa.Extract, f *ssa.Function) string {
 		}
 		switch t := b.Instrs[len(b.Instrs)-1].(type) {
 		case *ssa.Return:
-			if n := len(t.Results); n >= 1 && spilled(t, n-1) == ssa.Value(err) {
+			if n := len(t.Results); n >= 1 && resolve(env, spilled(t, n-1)) == ssa.Value(err) {
 				return // the error is handed to the caller
 			}
 			if k == untested || k == nonNil {
@@ -1481,9 +1566,21 @@ func errPathsDisciplined(err *ssa.Extract, f *ssa.Function) string {
 				return
 			}
 			tk, fk := k, k
-			if bo, ok := cond.(*ssa.BinOp); ok && (bo.X == ssa.Value(err) || bo.Y == ssa.Value(err)) && (bo.Op == token.EQL || bo.Op == token.NEQ) {
+			// an error variable that is nil on this path (cleared, or merged from a branch without an error)
+			if bo, ok := cond.(*ssa.BinOp); ok && (bo.Op == token.EQL || bo.Op == token.NEQ) && types.Identical(bo.X.Type(), err.Type()) {
+				rx, ry := resolve(env, bo.X), resolve(env, bo.Y)
+				if rx != ssa.Value(err) && ry != ssa.Value(err) && core.IsNilConst(rx) && core.IsNilConst(ry) && (rx != bo.X || ry != bo.Y) {
+					if (bo.Op == token.EQL) == pos {
+						walk(b, b.Succs[0], k, env)
+					} else {
+						walk(b, b.Succs[1], k, env)
+					}
+					return
+				}
+			}
+			if bo, ok := cond.(*ssa.BinOp); ok && (resolve(env, bo.X) == ssa.Value(err) || resolve(env, bo.Y) == ssa.Value(err)) && (bo.Op == token.EQL || bo.Op == token.NEQ) {
 				other := bo.Y
-				if other == ssa.Value(err) {
+				if resolve(env, other) == ssa.Value(err) {
 					other = bo.X
 				}
 				eqK, neK := k, k
@@ -1503,12 +1600,10 @@ func errPathsDisciplined(err *ssa.Extract, f *ssa.Function) string {
 				} else {
 					tk, fk = neK, eqK
 				}
-			} else if call, ok := cond.(*ssa.Call); ok && core.CalleeIs(&call.Call, "errors", "Is") && call.Call.Args[0] == ssa.Value(err) {
-				if pos {
-					tk = excused
-				} else {
-					fk = excused
-				}
+			} else if call, ok := cond.(*ssa.Call); ok && core.CalleeIs(&call.Call, "errors", "Is") && resolve(env, call.Call.Args[0]) == ssa.Value(err) {
+				// errors.Is also accepts an error that merely wraps the sentinel: that one comes from the reader, not
+				// from ReadFull, and is a failure. It excuses nothing here.
+				_ = call
 			}
 			walk(b, b.Succs[0], tk, env)
 			walk(b, b.Succs[1], fk, env)
